@@ -44,8 +44,13 @@ def case_st(draw, tier, mode):
         if not any(v):
             v[2] = 1.0
         dirs.append(v)
-    form = draw(st.sampled_from(['free', 'free', 'random_sampling', 'boresight', 'compact']))
+    form = draw(st.sampled_from(['free', 'free', 'random_sampling', 'boresight', 'compact', 'pole', 'long']))
     ns = draw(st.integers(1, 12))
+    if form == 'long':
+        # a long scan (more samples than any block size a chunked pointing expansion would use); one detector, angles
+        # derived from the seed inside the check
+        ndet, ndir, nside = 1, 1, draw(st.sampled_from([1, 2, 4, 8]))
+        dirs = dirs[:1]
     if form == 'boresight':
         dirs = [[0.0, 0.0, 1.0]] * (ndet * ndir)
     if form == 'compact':
@@ -67,6 +72,16 @@ def case_st(draw, tier, mode):
     theta = [draw(ang) for _ in range(ns)]
     phi = [draw(phi_s) for _ in range(ns)]
     psi = [draw(psi_s) for _ in range(ns)]
+    if form == 'pole':
+        # every sample sends the first detector direction exactly onto a pole: theta = its colatitude, psi = pi - its
+        # longitude (north), or the mirrored choice (south); phi is free
+        v0 = np.asarray(dirs[0], dtype=float)
+        v0 = v0 / np.linalg.norm(v0)
+        a0, b0 = math.acos(max(-1.0, min(1.0, v0[2]))), math.atan2(v0[1], v0[0])
+        ns = draw(st.integers(6, 16))
+        theta = [a0 if draw(st.booleans()) else a0 - math.pi for _ in range(ns)]
+        psi = [math.pi - b0 for _ in range(ns)]
+        phi = [draw(phi_s) for _ in range(ns)]
     holes = draw(st.integers(0, 3))
     return {'nside': nside, 'kind': kind, 'ndet': ndet, 'ndir': ndir, 'dirs': dirs, 'form': form, 'theta': theta,
             'phi': phi, 'psi': psi, 'seed': draw(st.integers(0, 10 ** 6)), 'holes': holes, 'nsamp': ns}
@@ -125,6 +140,10 @@ def check(recipe, mode):
             raise Violation('random-sampling-unobserved-pixel', 'create_random_sampling drew a pixel with zero hits')
     else:
         theta, phi, psi = (np.asarray(recipe[k], dtype=np.float64) for k in ('theta', 'phi', 'psi'))
+        if recipe['form'] == 'long':
+            rl = np.random.default_rng(recipe['seed'] + 3)
+            nl = [65536, 65537, 70000, 131072, 66000][recipe['seed'] % 5]
+            theta, phi, psi = rl.uniform(0, math.pi, nl), rl.uniform(-math.pi, 3 * math.pi, nl), rl.uniform(-math.pi, math.pi, nl)
         if recipe['seed'] % 3 == 0:
             # a loop over observations: an earlier scan of the same length was projected and dropped just before this one
             # is created (whatever the library remembers about it must not leak into the new scan)
@@ -138,23 +157,47 @@ def check(recipe, mode):
         # the model sees the angles as rounded to the working precision
         theta, phi, psi = (np.asarray(np.asarray(a, dtype=fdt), dtype=np.float64) for a in (theta, phi, psi))
     ns = len(theta)
-    # ---- reference pointing
-    pix = np.zeros((ndet, ndir, ns), dtype=np.int64)
-    robust = np.ones((ndet, ndir, ns), dtype=bool)
+    # ---- reference pointing (vectorised over samples): w = Rz(phi) Ry(theta) Rz(psi) v
     delta = 1e-9 if x64 else 2e-4
-    for t in range(ns):
-        R = _Rz(phi[t]) @ _Ry(theta[t]) @ _Rz(psi[t])
-        for a in range(ndet):
-            for b in range(ndir):
-                w = R @ vhat[a, b]
-                p = int(hp.vec2pix(nside, *w))
-                pix[a, b, t] = p
-                for k in range(3):
-                    for sgn in (-1, 1):
-                        w2 = w.copy()
-                        w2[k] += sgn * delta
-                        if int(hp.vec2pix(nside, *w2)) != p:
-                            robust[a, b, t] = False
+
+    def rotate(v):
+        x0, y0, z0 = v[..., 0, None], v[..., 1, None], v[..., 2, None]  # (ndet, ndir, 1)
+        cp, sp = np.cos(psi), np.sin(psi)
+        x1, y1 = x0 * cp - y0 * sp, x0 * sp + y0 * cp
+        ct, st_ = np.cos(theta), np.sin(theta)
+        x2, z2 = x1 * ct + z0 * st_, -x1 * st_ + z0 * ct
+        cf, sf = np.cos(phi), np.sin(phi)
+        return x2 * cf - y1 * sf, x2 * sf + y1 * cf, z2 + 0 * x2
+
+    wx, wy, wz = rotate(vhat)
+    pix = np.asarray(hp.vec2pix(nside, wx, wy, wz), dtype=np.int64).reshape(ndet, ndir, ns)
+    cands = [pix]
+    for k in range(3):
+        for sgn in (-1, 1):
+            dv = [wx, wy, wz]
+            dv[k] = dv[k] + sgn * delta
+            cands.append(np.asarray(hp.vec2pix(nside, *dv), dtype=np.int64).reshape(ndet, ndir, ns))
+    robust = (np.stack(cands) == pix[None]).all(axis=0)
+    # candidate pixels of a sample: every pixel overlapping the disc of radius 3 delta around the pointed direction
+    # (few samples), or the pixels hit by 26 perturbations of length 2 delta (long scans)
+    if ndet * ndir * ns <= 2000:
+        cand_sets = np.empty((ndet, ndir, ns), dtype=object)
+        for idx_ in np.ndindex(ndet, ndir, ns):
+            if robust[idx_]:
+                cand_sets[idx_] = {int(pix[idx_])}
+            else:
+                cand_sets[idx_] = set(int(q_) for q_ in hp.query_disc(nside, np.array([wx[idx_], wy[idx_], wz[idx_]]), 3 * delta, inclusive=True, fact=64)) | {int(pix[idx_])}
+    else:
+        for dx in (-1, 0, 1):
+            for dy in (-1, 0, 1):
+                for dz in (-1, 0, 1):
+                    if (dx, dy, dz) != (0, 0, 0):
+                        nrm = 2 * delta / math.sqrt(dx * dx + dy * dy + dz * dz)
+                        cands.append(np.asarray(hp.vec2pix(nside, wx + dx * nrm, wy + dy * nrm, wz + dz * nrm), dtype=np.int64).reshape(ndet, ndir, ns))
+        stack_ = np.stack(cands)
+        cand_sets = np.empty((ndet, ndir, ns), dtype=object)
+        for idx_ in np.ndindex(ndet, ndir, ns):
+            cand_sets[idx_] = set(stack_[(slice(None),) + idx_].tolist())
     shape = (ndet, ns) if ndir == 1 else (ndet, ndir, ns)
     pix_s, rob_s = pix.reshape(shape), robust.reshape(shape)
     rng = np.random.default_rng(recipe['seed'] + 7)
@@ -188,6 +231,22 @@ def check(recipe, mode):
             i = tuple(int(v[0]) for v in np.nonzero(bad))
             raise Violation('projection-value', f'component {c} at (det,[dir,]sample) {i}: got {l[i]!r} want {want[c][i]!r} '
                                                 f'(reference pixel {int(pix_s[i])}, nside {nside})')
+    # ---- every sample, robust or not, reads ONE OF the pixels within delta of the pointed direction: a ramp sky whose
+    # first component is the pixel number identifies the pixel that was read (|Q + iU| is invariant under the rotation)
+    if npix <= (2 ** 22 if 'i' in kind.lower() else 2 ** 16):
+        ramp = np.arange(npix, dtype=np.float64)
+        comp2 = {c: (ramp if c in ('i', 'q') else np.zeros(npix)) for c in kind.lower()}
+        tod2 = must_not_raise('projection-mv', proj.mv, StokesPyTree.from_stokes(*[jnp.asarray(comp2[c], dtype=fdt) for c in kind.lower()]))
+        l2 = {c: np.asarray(l, dtype=np.float64) for c, l in zip(kind.lower(), jax.tree.leaves(tod2))}
+        ident = l2['i'] if 'i' in l2 else np.hypot(l2['q'], l2['u'])
+        if not np.all(np.isfinite(ident)):
+            raise Violation('projection-not-finite', 'NaN/Inf in the projected ramp sky')
+        got_pix = np.rint(ident).astype(np.int64).reshape(ndet, ndir, ns)
+        for i in np.ndindex(ndet, ndir, ns):
+            if int(got_pix[i]) not in cand_sets[i]:
+                raise Violation('projection-pixel', f'(det, dir, sample) {i}: pixel {int(got_pix[i])} was read; the pointed direction '
+                                                    f'({wx[i]:.9g}, {wy[i]:.9g}, {wz[i]:.9g}) lies in pixel {int(pix[i])} (within {3 * delta:g}: {sorted(cand_sets[i])[:12]}), nside {nside}')
+        classes.append('pixel_identity_checked')
     all_robust = bool(robust.all())
     # ---- P.T @ P = hit counts (before and after reduction)
     ptp = proj.T @ proj
@@ -208,6 +267,21 @@ def check(recipe, mode):
                     raise Violation(name + '-hits', f'component {c}, pixel {j}: {l1[j]} instead of {hits[j]} hits')
                 if np.abs(l2 - hits * sky[c]).max() > tolh * 4:
                     raise Violation(name + '-value', f'component {c}: P.T P sky differs from hits * sky')
+    # ---- the same product when the projection is BUILT under jit (pointing arrays are tracers there)
+    if recipe['seed'] % 4 == 1 and ndet * ndir * ns <= 200:
+        def built_under_jit(th_, ph_, ps_, x_):
+            P_ = create_projection_operator(landscape, Sampling(th_, ph_, ps_), dets)
+            return (P_.T @ P_).reduce().mv(x_)
+        outj = must_not_raise('PtP-reduced-under-jit', lambda: jax.jit(built_under_jit)(samp.theta, samp.phi, samp.pa, ones))
+        for c, l1 in zip(kind.lower(), jax.tree.leaves(outj)):
+            l1 = np.asarray(l1, dtype=np.float64)
+            tolh = (1e-10 if x64 else 1e-4) * max(1.0, hits.max())
+            if abs(l1.sum() - ndet * ndir * ns) > tolh * 4:
+                raise Violation('PtP-reduced-under-jit-total', f'component {c}: hit counts sum to {l1.sum()} instead of {ndet * ndir * ns}')
+            if all_robust and np.abs(l1 - hits).max() > tolh:
+                j = int(np.argmax(np.abs(l1 - hits)))
+                raise Violation('PtP-reduced-under-jit-hits', f'component {c}, pixel {j}: {l1[j]} instead of {hits[j]} hits')
+        classes.append('projection_built_under_jit')
     # ---- acquisition (SAT model: one direction per detector; needs 64-bit mode)
     if x64:
         from furax.instruments.sat import create_acquisition
